@@ -7,7 +7,7 @@ from common import run_correspondence
 import tnet_gen as G
 
 PROP = "C08"
-LEAN_FILES = ["QibProofs/Properties/C08.lean"]
+LEAN_FILES = ["QibProofs/Properties/C08.lean", "QibProofs/Properties/C08Public.lean"]
 GEN = ()
 DRIVER = "drv_tnet"
 LEVEL_TEXT = ("Lean 4 theorems, for ALL inputs, about the executable replica of SymbolicTensorNetwork surgery that the driver runs: "
@@ -21,7 +21,18 @@ LEVEL_TEXT = ("Lean 4 theorems, for ALL inputs, about the executable replica of 
               "generalised contraction over the joined axes with the remaining axes of the first operand followed by those of the second, "
               "for arbitrary (axis-reusing) join lists, and depends on the second operand only through its value (merge_pure). "
               "The replica is tied to the code by exact comparison of both dictionaries (insertion order included), is_consistent(), "
-              "the counts and the dense integer value after every operation of random histories.")
+              "the counts and the dense integer value after every operation of random histories. "
+              "PUBLIC STAGE (C08Public.lean, model TNetPublic.lean, op net.historyP): the public calls merge_tensors / merge_bonds / add_tensor / "
+              "add_bond / generate_bonds / wrap as outcomes (exception + the state the call leaves behind): accepted iff (on every network, "
+              "and on consistent ones), only KeyError / ValueError / RuntimeError, a rejected call leaves a consistent network untouched, "
+              "dangling ids make merge_tensors / merge_bonds / generate_bonds raise after writing (characterised); merge_tensors keeps "
+              "consistency iff the second operand is not the virtual tensor, merge_bonds iff the two bonds have one dimension (traces included); "
+              "counts -1 tensor / -1 bond exactly; value: merge_tensors unchanged when the fused tensor carries the outer product, merge_bonds = "
+              "diagonal restriction of the defining sum in every open/internal configuration (fullDiag), open-open = Kronecker delta of the two "
+              "logical indices; generate_bonds in closed form, consistent result, rebuilds the bonds of any consistent network; wrap of any "
+              "shape is consistent and contracts to the array; add_bond never keeps consistency, add_tensor iff no axes; all queries agree with "
+              "each other on every network (has_/get_, num_tensors = |tensor_ids|, shape = bond dimensions of the open axes, get_bond_axes back "
+              "references); histories over the enlarged operation set keep the invariant (pub_ops_consistent).")
 TECHNIQUE = ("invariant bridging (executable check <-> declarative well-formedness over permutation-invariant leg multisets), "
              "induction over operation histories and over the loops of merge, relabelling/delta-insertion lemmas for sums over bond "
              "labellings; differential execution of operation histories against the real objects; direct oracle (is_consistent, counts "
@@ -44,10 +55,14 @@ ASSUMPTIONS = ["the iteration order of the Python sets `keys() & keys()` inside 
                "implementation's einsum is exact too; indices are within the shape"]
 RULE = ("histories of 1..10 rename/transpose/merge operations over 1..3 random consistent networks with colliding ids and "
         "shared datarefs (plus networks that is_consistent() must reject, whose initial state only is compared); a history is "
-        "non-trivial if at least one operation succeeded and changed a dictionary; distinct = distinct (networks, operation list)")
+        "non-trivial if at least one operation succeeded and changed a dictionary; distinct = distinct (networks, operation list); "
+        "public stage: histories of 1..9 public calls (merge_tensors / merge_bonds with equal, unknown, virtual, dimension-mismatched ids; "
+        "add_tensor / add_bond valid, duplicate, malformed; generate_bonds on empty and non-empty bond collections; wrap; set_data = the "
+        "caller storing the outer product) interleaved with rename / transpose / merge on consistent networks, plus fixed boundary histories "
+        "(calls that raise after writing); all queries probed on every key and four fixed ids after every step")
 LIMIT = 20000
 import os
-PUBLIC_STAGE = os.environ.get("C08_PUBLIC", "0") == "1"      # switched on by default once green
+PUBLIC_STAGE = os.environ.get("C08_PUBLIC", "1") == "1"      # C08_PUBLIC=0 runs the first stage only
 
 
 def snapshot(tn):
@@ -800,11 +815,11 @@ def oracle_queries(tag, st, bad):
             bad.append(("C08:query:has", f"{tag}: has_tensor({i}) = {ht}, has_bond({i}) = {hb}; keys {keys_t} / {keys_b}"))
         if ht != (not isinstance(gt, dict)) or (isinstance(gt, dict) and gt["err"] != "KeyError"):
             bad.append(("C08:query:get_tensor", f"{tag}: has_tensor({i}) = {ht} but get_tensor gives {gt}"))
-        elif ht and gt != st["tensors"][keys_t.index(i)][1:]:
+        elif ht and i in keys_t and gt != st["tensors"][keys_t.index(i)][1:]:
             bad.append(("C08:query:get_tensor", f"{tag}: get_tensor({i}) = {gt}, dictionary entry {st['tensors'][keys_t.index(i)]}"))
         if hb != (not isinstance(gb, dict)) or (isinstance(gb, dict) and gb["err"] != "KeyError"):
             bad.append(("C08:query:get_bond", f"{tag}: has_bond({i}) = {hb} but get_bond gives {gb}"))
-        elif hb and gb != st["bonds"][keys_b.index(i)][1:]:
+        elif hb and i in keys_b and gb != st["bonds"][keys_b.index(i)][1:]:
             bad.append(("C08:query:get_bond", f"{tag}: get_bond({i}) = {gb}, dictionary entry {st['bonds'][keys_b.index(i)]}"))
     if st["consistent"] is True:
         tens = {t[0]: t for t in st["tensors"]}
@@ -912,8 +927,9 @@ def oracle_p(case, o):
                     want = [c0[0] - 1, c0[1], c0[2] + (len(T2[2]) if t1 == -1 else 0)]
                     if c1 != want:
                         bad.append(("C08:merge_tensors:counts", f"{tag}: counts {c0} -> {c1}, expected {want}"))
-                    fused = st["tensors"][[t[0] for t in st["tensors"]].index(t1)]
-                    if fused[1:4] != [T1[1], T1[2] + T2[2], T1[3] + T2[3]]:
+                    nkt = [t[0] for t in st["tensors"]]
+                    fused = st["tensors"][nkt.index(t1)] if t1 in nkt else None    # "the resulting tensor inherits ID tid1"
+                    if fused is None or t2 in nkt or fused[1:4] != [T1[1], T1[2] + T2[2], T1[3] + T2[3]]:
                         bad.append(("C08:merge_tensors:fused-tensor", f"{tag}: fused tensor {fused}, operands {T1}, {T2}"))
                     if t1 != -1 and isinstance(prev["value"], np.ndarray):
                         pending[i] = (prev["value"], t1)
@@ -937,9 +953,10 @@ def oracle_p(case, o):
                         bad.append(("C08:merge_bonds:bond-tids-unsorted", f"{tag}: a bond's tensor ids are no longer ordered"))
                     B1 = prev["bonds"][keys_b.index(b1)]
                     B2 = prev["bonds"][keys_b.index(b2)]
-                    fb = st["bonds"][[b[0] for b in st["bonds"]].index(b1)]
-                    if fb[2] != sorted(B1[2] + B2[2]) or b2 in [b[0] for b in st["bonds"]] or any(b2 in t[3] for t in st["tensors"]):
-                        bad.append(("C08:merge_bonds:fused-bond", f"{tag}: fused bond {fb}, operands {B1}, {B2}"))
+                    nkeys = [b[0] for b in st["bonds"]]
+                    fb = st["bonds"][nkeys.index(b1)] if b1 in nkeys else None      # "the resulting bond inherits ID bid1"
+                    if fb is None or fb[2] != sorted(B1[2] + B2[2]) or b2 in nkeys or any(b2 in t[3] for t in st["tensors"]):
+                        bad.append(("C08:merge_bonds:fused-bond", f"{tag}: fused bond {fb} (must carry id {b1}; id {b2} must be gone), operands {B1}, {B2}"))
                     if isinstance(st["value"], np.ndarray) and prev.get("_data") is not None and prev["consistentData"] is True:
                         want = brute_identified(prev, prev["_data"], b1, b2)
                         if want is not None and (want.shape != st["value"].shape or not np.array_equal(want, st["value"])):
@@ -1156,7 +1173,7 @@ def boundary_public():
 def gen_cases_public(tier, rng):
     thorough = tier == "thorough"
     yield from boundary_public()
-    for _ in range(30000 if thorough else 2500):
+    for _ in range(22000 if thorough else 2500):
         yield gen_public(rng, thorough)
 
 
